@@ -12,13 +12,14 @@ import (
 )
 
 type asch struct {
-	kind     string // null boolean int long float double bytes string fixed enum record array map union
-	n        int    // fixed size / enum symbol count
-	names    []string
-	fields   []*asch // record fields / union branches
-	items    *asch   // array items / map values
-	logical  string  // logicalType carried into the Go-shaped schema (does not affect the encoding)
-	recName  string
+	kind       string // null boolean int long float double bytes string fixed enum record array map union
+	n          int    // fixed size / enum symbol count
+	names      []string
+	fields     []*asch // record fields / union branches
+	items      *asch   // array items / map values
+	logical    string  // logicalType carried into the Go-shaped schema (does not affect the encoding)
+	recName    string
+	timeTarget bool // the Go target of this leaf is time.Time
 }
 
 type aval struct {
@@ -201,17 +202,31 @@ func encodeSpec(p *plan, s *asch, v *aval) []byte {
 // ---- generators ----
 
 type wgen struct {
-	rng      *rand.Rand
-	maxDepth int
-	nrec     int
-	// restrict to what the library supports on the read side
-	noEnum bool
+	rng            *rand.Rand
+	maxDepth       int
+	nrec           int
+	noGeneralUnion bool // only nullable unions (the library has no writer for general unions)
+	withTime       bool // logical date/timestamp leaves and string leaves targeted at time.Time
 }
 
 var primKinds = []string{"boolean", "int", "long", "float", "double", "bytes", "string"}
 
 func (g *wgen) schema(depth int) *asch {
 	r := g.rng
+	if g.withTime && r.Intn(8) == 0 {
+		switch r.Intn(5) {
+		case 0:
+			return &asch{kind: "long", logical: "timestamp-micros", timeTarget: true}
+		case 1:
+			return &asch{kind: "long", logical: "timestamp-millis", timeTarget: true}
+		case 2:
+			return &asch{kind: "long", timeTarget: true}
+		case 3:
+			return &asch{kind: "int", logical: "date", timeTarget: true}
+		default:
+			return &asch{kind: "string", timeTarget: true}
+		}
+	}
 	if depth >= g.maxDepth || r.Intn(3) == 0 {
 		k := r.Intn(len(primKinds) + 1)
 		if k == len(primKinds) {
@@ -237,6 +252,9 @@ func (g *wgen) schema(depth int) *asch {
 		}
 		return &asch{kind: "union", fields: []*asch{inner, {kind: "null"}}}
 	default:
+		if g.noGeneralUnion {
+			return g.schema(g.maxDepth)
+		}
 		// single-branch or multi-branch union
 		n := 1 + r.Intn(3)
 		u := &asch{kind: "union"}
